@@ -12,7 +12,7 @@ RULE = ("Hypothesis-generated RAMSES outputs (plain-data case -> explicit AMR tr
         "regions (nx=3), ghost copies of foreign octs with poisoned values in the other CPU slots, fabricated boundary "
         "octs outside the box, noutput 1-30, 8/16-byte bound keys, 2-14 hydro variables from the RAMSES vocabulary, "
         "optional grav and rt files, unit_d/l/t log-uniform in 1e-30..1e30, output number explicit or -1 with a decoy "
-        "lower-numbered output.  Oracle: the model's leaf table (centre on the exact 2^-(levelmax+1) lattice, dx, "
+        "lower-numbered output; sequences in which outputs appear in one directory between loads with nout=-1.  Oracle: the model's leaf table (centre on the exact 2^-(levelmax+1) lattice, dx, "
         "level, owner cpu, every variable x RAMSES unit factor, unit dims, vector assembly, derived mass and B_field, "
         "meta ncells/time) compared as row multisets.  non-trivial = >=2 CPUs and >=1 ghost oct in a foreign slot and "
         ">=2 distinct leaf levels; distinct = distinct canonical JSON of the case.")
@@ -68,8 +68,45 @@ def full_load(case, r):
         rc.cleanup(path)
 
 
+def latest_output(case, r):
+    """nout=-1 must resolve to the highest-numbered output present *at the time of the call*, also when outputs
+    appear between calls in the same process (and explicit numbers must keep addressing their own output)."""
+    import os
+
+    from vlib import env as _env
+    path = _env.scratch_dir("ramses_seq_")
+    r.nontrivial()
+    try:
+        models = {}
+        numbers = sorted(set(case["numbers"]))
+        for k, num in enumerate(numbers):
+            c = dict(case["base"], nout=num, seed=case["base"]["seed"] + 101 * k, use_minus1=False)
+            models[num] = rm.build_model(c)
+            rm.write_output(models[num], path)
+            for nout, want in ((-1, num), (numbers[0], numbers[0])):
+                try:
+                    ds, _ = rc.quiet_load(osyris, nout, path)
+                except Exception as e:
+                    r.bad(["latest-output", "raises", type(e).__name__], f"nout={nout} after writing {numbers[:k + 1]}: {e!r}")
+                    return
+                if rc.compare_mesh(osyris, ds["mesh"], models[want], r, tag=f"latest(nout={nout})") is None:
+                    r.records[-1]["detail"] += f"; outputs present {numbers[:k + 1]}, nout={nout} must address output {want}"
+                    return
+    finally:
+        rc.cleanup(path)
+
+
+@__import__("hypothesis").strategies.composite
+def latest_case_st(draw):
+    from hypothesis import strategies as st
+    base = draw(rc.output_cases(with_part=False, with_sink=False, max_cpu=3))
+    base["max_cells"] = 300
+    return {"base": base, "numbers": draw(st.lists(st.integers(1, 120), min_size=2, max_size=3, unique=True))}
+
+
 def subs(ctx):
-    return [Sub("full_load", full_load, strategy=rc.output_cases(with_part=False, with_sink=False),
+    return [Sub("latest_output", latest_output, strategy=latest_case_st(), quick=15, thorough=60),
+            Sub("full_load", full_load, strategy=rc.output_cases(with_part=False, with_sink=False),
                 quick=150, thorough=700,
                 required={"multi_cpu": 0.5, "ghosts": 0.3, "boundaries": 0.2, "ndim_1": 0.08, "ndim_2": 0.15,
                           "ndim_3": 0.15, "multi_level": 0.4})]
